@@ -416,7 +416,7 @@ Proof.
   intros s p n b cc Hp H.
   destruct (loc_table s p 0 n b cc Hp H) as [I1 [I2 [I3 [I4 [I5 I6]]]]].
   unfold get_charno. rewrite line_starts_ends.
-  replace (1 + Z.of_nat n - 1) with (Z.of_nat n) by lia.
+  replace (Z.max (1 + Z.of_nat n - 1) 0) with (Z.of_nat n) by lia.
   rewrite py_index_nonneg by lia. rewrite Nat2Z.id. rewrite I1.
   replace (0 + Z.of_nat p - cc) with (Z.of_nat p - cc) by lia.
   destruct (is_ascii s) eqn:A; simpl orb.
@@ -735,7 +735,7 @@ Proof.
   unfold get_charno in G. rewrite HA in G. simpl orb in G.
   unfold charno_v0. rewrite <- HL.
   unfold line_starts in G. destruct (starts_from 0 (tok_lines s)) as [r e]. rewrite HE in G.
-  simpl fst. exact G.
+  simpl fst. replace (Z.max (1 + Z.of_nat n - 1) 0) with (1 + Z.of_nat n - 1) in G by lia. exact G.
 Qed.
 
 (* Python's negative index: t[-1] is the last element, which is what source[start - 1] read at start = 0 *)
